@@ -218,23 +218,39 @@ class Driver:
         )
 
     def ask(self, lines: Sequence[str]) -> List[str]:
-        """send lines, read as many answers"""
+        """send lines, read as many answers (the writing happens in a thread: both pipes are bounded, so writing a
+        large batch while the driver is blocked on its own full output pipe would deadlock)"""
         if not lines:
             return []
+        import threading
+
         out: List[str] = []
         CH = 2000
         for i in range(0, len(lines), CH):
             chunk = lines[i : i + CH]
             for l in chunk:
                 assert "\n" not in l
-            self.p.stdin.write("\n".join(chunk) + "\nflush\n")
-            self.p.stdin.flush()
+            payload = "\n".join(chunk) + "\nflush\n"
+            err: List[BaseException] = []
+
+            def _write(data=payload):
+                try:
+                    self.p.stdin.write(data)
+                    self.p.stdin.flush()
+                except BaseException as e:  # broken pipe etc.
+                    err.append(e)
+
+            th = threading.Thread(target=_write, daemon=True)
+            th.start()
             for _ in chunk:
                 a = self.p.stdout.readline()
                 if not a:
                     raise ToolFailure("driver died")
                 out.append(a.rstrip("\n"))
             f = self.p.stdout.readline().rstrip("\n")
+            th.join()
+            if err:
+                raise ToolFailure(f"driver write failed: {err[0]}")
             if f != "flushed":
                 raise ToolFailure(f"driver protocol out of step: {f!r}")
         return out
